@@ -254,7 +254,8 @@ def _bad(n):
     raise FormulaError('unknown node %d' % n)
 
 
-SPECIAL_NAMES = ("x'", "y''", '_a1', 'a.b', 'c.d.e')
+SPECIAL_NAMES = ("x'", "y''", '_a1', 'a.b', 'c.d.e', 'item', 'TRUEx', 'Falsey', 'A', 'E', 'S',
+                 '_', 'iteite', 'trueish')
 
 
 def task_names(t):
@@ -269,7 +270,8 @@ def task_names(t):
     raw = O.raw(bdd)
     ev = Evaluator(U)
     forms = []
-    for a, b_ in itertools.permutations(names, 2):
+    pairs = list(itertools.permutations(names, 2))
+    for a, b_ in pairs[::3] + pairs[1::7]:
         forms += [f'{a} /\\ {b_}', f'~ {a} => {b_}', f'\\E {a}: {a} # {b_}',
                   f'\\S {b_} / {a}: {a}', f'ite({a}, {b_}, ~{a})', f'{a}<->{b_}']
     for s in forms:
